@@ -206,9 +206,21 @@ class StoreDriver:
             r = s.request('PUT', '/api/multi-period-streams/.add', json=body)
             js = r.get_json(silent=True) or {}
             return r.status_code, 1 if js.get('success') else 0, 0
+        if op == 'rename_mps':
+            # edit of a multi-period stream as the editor page sends it: the current model with another name
+            mpk = next((m['pk'] for m in st['mps'] if m['name'] == a), 9999)
+            g = s.request('GET', f'/api/multi-period-streams/{a}?ajax=1')
+            model = (g.get_json(silent=True) or {}).get('model')
+            if not model:
+                return g.status_code, 0, mpk
+            body = dict(model)
+            body.update(csrf_token=s.mint('streams'), name=b)
+            r = s.request('POST', f'/api/multi-period-streams/{a}', json=body)
+            js = r.get_json(silent=True) or {}
+            return r.status_code, 1 if js.get('success') else 0, mpk
         if op == 'delete_mps':
             mpk = next((m['pk'] for m in st['mps'] if m['name'] == a), 9999)
-            r = s.request('DELETE', f'/api/multi-period-streams/{a}?csrf_token={s.mint("streams")}')
+            r = s.request('DELETE', f'/api/multi-period-streams/{a}?ajax=1&csrf_token={s.mint("streams")}')
             return r.status_code, 1 if r.status_code == 204 else 0, mpk
         raise MachineryFailure(f'unknown op {op}')
 
@@ -287,6 +299,10 @@ SCRIPTS = [
     # multi-period stream life-cycle
     [('add_stream', 's1', ''), ('upload', 's1', 'fv'), ('set_tref', 's1', 'fv'), ('add_mps', 'mm1', 's1'), ('add_mps', 'mm1', 's1'),
      ('delete_mps', 'mm1', ''), ('delete_mps', 'mm1', ''), ('delete_stream', 's2', '')],
+    # editing a multi-period stream's name: to a free name, to its own name, to the name of another one (refused cleanly)
+    [('add_stream', 's1', ''), ('upload', 's1', 'fv'), ('set_tref', 's1', 'fv'), ('add_mps', 'mm1', 's1'), ('add_mps', 'mm2', 's1'),
+     ('rename_mps', 'mm1', 'mm1'), ('rename_mps', 'mm1', 'mm2'), ('rename_mps', 'mm2', 'mm3'), ('rename_mps', 'mm1', 'mm2'),
+     ('rename_mps', 'mm3', 'mm1'), ('delete_mps', 'mm1', ''), ('rename_mps', 'mm3', 'mm1'), ('delete_mps', 'mm1', '')],
     # foreign timing reference
     [('add_stream', 's1', ''), ('add_stream', 's2', ''), ('upload', 's1', 'fv'), ('set_tref', 's2', 'fv'), ('add_mps', 'mm1', 's2')],
 ]
@@ -296,7 +312,7 @@ def random_history(rng: random.Random, n: int) -> list[tuple[str, str, str]]:
     h: list[tuple[str, str, str]] = [('add_stream', rng.choice(DIRS), '')]
     for _ in range(n):
         op = rng.choice(['add_stream', 'delete_stream', 'upload', 'upload', 'upload', 'delete_media', 'set_tref', 'set_tref',
-                         'add_key', 'delete_key', 'add_mps', 'delete_mps', 'edit_media', 'rename_stream', 'upload_raw', 'index'])
+                         'add_key', 'delete_key', 'add_mps', 'delete_mps', 'edit_media', 'rename_stream', 'upload_raw', 'index', 'rename_mps'])
         if op in ('add_stream', 'delete_stream'):
             h.append((op, rng.choice(DIRS), ''))
         elif op in ('upload', 'upload_raw'):
@@ -317,6 +333,8 @@ def random_history(rng: random.Random, n: int) -> list[tuple[str, str, str]]:
             h.append((op, rng.choice(KIDS), ''))
         elif op == 'add_mps':
             h.append((op, rng.choice(MPS), rng.choice(DIRS)))
+        elif op == 'rename_mps':
+            h.append((op, rng.choice(MPS), rng.choice(MPS + ['mm2'])))
         else:
             h.append((op, rng.choice(MPS), ''))
     return h
